@@ -150,4 +150,8 @@ def check(prog, rep):
     generating_set_as_weights(prog, rep, "C04.R10", "MinFlowDecompCycles")
     from rules.values import candidate_weights_exclude_ignored, subgraph_windows_guarded
     candidate_weights_exclude_ignored(prog, rep, "C04.R10", "MinFlowDecompCycles")
-
+    from rules.values import python_arithmetic as _pa4
+    from sa.pm import AnalysisError as _AE4
+    if _pa4(prog, rep, "C04.R5", [prog.own_method("kFlowDecompCycles", "__init__")],
+            "the structural repetition bound of ignored edges comes out too small and a decomposable flow is reported infeasible (np.uint8 flows 1, 200, 200, 1: 402 -> 146)") < 1:
+        raise _AE4("kFlowDecompCycles.__init__: the sum of the non-ignored flow values was not found")
